@@ -162,6 +162,10 @@ spifconf_register_builtin(char *name, spifconf_func_ptr_t ptr)
         builtin_cnt *= 2;
         builtins = (spifconf_func_t *) REALLOC(builtins, sizeof(spifconf_func_t) * builtin_cnt);
     }
+    /* The lookup in spifconf_shell_expand() stops at the first NULL name:  keep the table
+       terminated (REALLOC does not clear the slots it adds). */
+    builtins[builtin_idx].name = NULL;
+    builtins[builtin_idx].ptr = NULL;
     return (builtin_idx - 1);
 }
 
